@@ -137,8 +137,9 @@ class Infrastructure(RuntimeError):
     """a failure of the tooling (coqc missing, build lock, disk) as opposed to a breakdown of the correspondence"""
 
 
-class ImplTimeout(Exception):
-    """the implementation (or the correspondence around it) did not finish within its time budget"""
+class ImplTimeout(BaseException):
+    """the implementation (or the correspondence around it) did not finish within its time budget
+    (BaseException: the broad `except Exception` around implementation calls in the props modules must not swallow it)"""
 
 
 @contextlib.contextmanager
